@@ -40,6 +40,10 @@ func checkC07(r *Run) {
 	checkMaskDiscipline(r, p)
 	checkPeerBroadcast(r, p)
 	checkFreeWriterAck(r, p)
+	r.Rule("C07.R7.copy", "in the distribution framer a request or response rebuilt field by field from a value of its own type lists every field of the type: a hop that forwards 'only the fields it needs' silently zeroes the rest (bounds, keys, sequence numbers) for the nodes behind it, and the answer then depends on where the channels live", 1)
+	checkPartialCopy(r, p, "C07.R7.copy", func(fn *FuncNode) bool {
+		return fn.InPkgs("synnax/pkg/distribution/framer") && !fn.InPkgs("synnax/pkg/distribution/framer/pb")
+	})
 	checkErrDrop(r, p, "C07.ERR", func(fn *FuncNode) bool {
 		return fn.InPkgs("synnax/pkg/distribution/framer") && !fn.InPkgs("synnax/pkg/distribution/framer/codec", "synnax/pkg/distribution/framer/pb")
 	}, 150)
